@@ -146,7 +146,8 @@ Proof.
   set (named := match get_str (st x1) d str_NAME with Some nm => _ | None => _ end).
   assert (Hn : UPF named).
   { unfold named. destruct (get_str (st x1) d str_NAME) as [nm|]; [|intros _; exact U1].
-    apply (upf_dict_set (mkX (st x1) (S (uniq_ctr x1)) (flat_ctr x1))); [exact U1|]. intros x3 U3.
+    cbv zeta. destruct (fresh_ctr _ _ _ _ _ _) as [k|]; [|intro H; discriminate].
+    apply (upf_dict_set (mkX (st x1) (S k) (flat_ctr x1))); [exact U1|]. intros x3 U3.
     destruct (get_str (st x3) d' str_IDENT) as [idv|]; [|intros _; exact U3].
     apply upf_dict_set; [exact U3|]. intros x4 U4 _. exact U4. }
   destruct named as [x5 [e|]]; [intro H; discriminate|].
